@@ -139,7 +139,7 @@ def run_valid(ctx, pydsdl, ns, seed, orders, workdir):
 
 
 ERROR_SHAPES = ["missing-name", "missing-version", "self", "cycle2", "cycle3", "case-only", "duplicate-in-lookups", "lookup-not-given", "older-minor-only",
-                "relative-in-other-namespace", "self-with-namesake", "cycle2-with-namesake", "cycle3-with-namesake", "duplicate-in-one-root", "duplicate-in-one-root", "suffix-qualified", "suffix-qualified"]
+                "relative-in-other-namespace", "self-with-namesake", "cycle2-with-namesake", "cycle3-with-namesake", "duplicate-in-one-root", "duplicate-in-one-root", "suffix-qualified", "suffix-qualified", "version-alias", "version-alias"]
 
 
 def make_error(rng, ns0, shape):
@@ -244,6 +244,18 @@ def make_error(rng, ns0, shape):
         if any(GN.full_name(ns, x) == GN.full_name(ns, t) and tuple(x["ver"]) == tuple(t["ver"]) and x["root"] in [0] + lookups for x in defs):
             return None
         # other references into the withheld root would fail too, which is fine: the tree must be rejected
+    elif shape == "version-alias":
+        # version numbers of a reference that no definition can have (> 255) but that equal an existing version modulo 256 or
+        # after packing major and minor into one number: exactly M.m means the numbers, not some key derived from them
+        o = rng.choice([x for x in defs if x is not d and x["kind"] == "msg"] or [None])
+        if o is None or GN.full_name(ns, o) == GN.full_name(ns, d):
+            return None
+        M, m = o["ver"]
+        nv = rng.choice([(M, m + 256), (M, m + 512), (M + 256, m), (M - 1, m + 256) if M > 0 else (M, m + 256), (M + 1, m - 256 + 512) if m < 256 else (M, m + 256),
+                         (0, (M << 8) | m) if M > 0 else (M, m + 65536), (M, m + 65536)])
+        if any(GN.full_name(ns, x) == GN.full_name(ns, o) and tuple(x["ver"]) == tuple(nv) for x in defs):
+            return None
+        d["refs"].append({"text": "%s.%d.%d" % (GN.full_name(ns, o), nv[0], nv[1])})
     elif shape == "suffix-qualified":
         # a dotted name is absolute: an existing type named without its leading component(s) - as if the name were relative to the
         # root or to a parent namespace, preferably one the referrer itself lives in - does not exist under that name
